@@ -420,7 +420,7 @@ theorem relayout_deck_partial (cv : Conv) (tbl : Table) (recog : Bytes → Bool)
 
 def oilKw : DK := .kw ⟨b "OIL", false, false, []⟩
 
-theorem oil_conforms (deck : DeckT) : Conforms demoConv idFmt true demoTable (fun _ => false) deck [oilKw] := by
+private theorem oil_conforms (deck : DeckT) : Conforms demoConv idFmt true demoTable (fun _ => false) deck [oilKw] := by
   refine ⟨?_, trivial⟩
   refine ⟨⟨⟨.fixed 0, false, none, [], false, false⟩, _, ?_, rfl, rfl, rfl, Or.inl ⟨rfl, rfl, rfl⟩, ?_⟩⟩
   · exact ⟨by decide +kernel, by decide +kernel, by decide +kernel, by decide +kernel, by decide +kernel,
